@@ -118,8 +118,8 @@ Pre(s, op, a) ==
   CASE op = "mix_from" -> /\ a.r \in Names /\ \A i \in DOMAIN a.ins : a.ins[i] \in Names
                           /\ MixFits(t, a.r, a.ins)
                           /\ InPkg(t[a.r], VSum([i \in DOMAIN a.ins |-> Tot(t[a.ins[i]])]))
-                          \* other streams sharing containers with the receiver make "the receiver" ambiguous
-                          /\ \A i \in DOMAIN a.ins : a.ins[i] # a.r => t[a.ins[i]].fr # t[a.r].fr
+                          \* inlets that share the receiver's flow container (proxies, flow proxies, links) count like the
+                          \* receiver itself: each occurrence contributes the container's flows once
     [] op = "split_to" -> /\ {a.x, a.y, a.z} \subseteq Names /\ Cardinality({a.x, a.y, a.z}) = 3
                           /\ t[a.x].k = "s" /\ t[a.y].k = "s" /\ t[a.z].k = "s"
                           /\ t[a.y].fr # t[a.x].fr /\ t[a.z].fr # t[a.x].fr /\ t[a.y].fr # t[a.z].fr
@@ -134,6 +134,11 @@ Pre(s, op, a) ==
     [] op = "copy_flow" -> /\ {a.x, a.y} \subseteq Names /\ a.x # a.y /\ t[a.x].fr # t[a.y].fr /\ t[a.x].k = "s"
                            /\ Range(a.ids) \subseteq PkgChems[t[a.y].pkg]
                            /\ InPkg(t[a.x], [c \in 1..NC |-> IF c \in CopyK(t, a) THEN Tot(t[a.y])[c] ELSE 0])
+    \* copy_flow onto a multi-phase receiver: the library copies phase rows (by position for equal packages) or refuses; the
+    \* contract is stated on the per-chemical totals only (recorded executions; not part of the model's Next)
+    [] op = "copy_flow_multi" -> /\ {a.x, a.y} \subseteq Names /\ a.x # a.y /\ t[a.x].fr # t[a.y].fr /\ t[a.x].k = "m"
+                                 /\ Range(a.ids) \subseteq PkgChems[t[a.y].pkg]
+                                 /\ InPkg(t[a.x], [c \in 1..NC |-> IF c \in CopyK(t, a) THEN Tot(t[a.y])[c] ELSE 0])
     [] op = "scale" -> a.x \in Names /\ \A i \in DOMAIN t[a.x].ph : ScalesExactly(t[a.x].fl[t[a.x].ph[i]], a.q)
     [] op = "empty" -> a.x \in Names
     [] op = "set_flow" -> a.x \in Names /\ a.p \in Range(t[a.x].ph) /\ a.c \in PkgChems[t[a.x].pkg] /\ a.v >= 0
@@ -206,6 +211,7 @@ Post(s, op, a) ==
              t2 == IF a.remove THEN PutFlow(t1, a.y, FlOf(Range(t[a.y].ph), LAMBDA p : [c \in 1..NC |-> IF c \in K THEN 0 ELSE t[a.y].fl[p][c]]))
                    ELSE t1
          IN [s EXCEPT !.st = t2]
+    [] op = "copy_flow_multi" -> s
     [] op = "scale" -> [s EXCEPT !.st = PutFlow(t, a.x, FlOf(Range(t[a.x].ph), LAMBDA p : Scaled(t[a.x].fl[p], a.q)))]
     [] op = "empty" -> [s EXCEPT !.st = PutFlow(t, a.x, FlOf(Range(t[a.x].ph), LAMBDA p : Zeros))]
     [] op = "set_flow" -> [s EXCEPT !.st = PutFlow(t, a.x, [t[a.x].fl EXCEPT ![a.p][a.c] = a.v])]
@@ -315,6 +321,17 @@ Judge(s, e) ==
   IN
   IF e.op = "ubad" THEN      \* dimensionally inconsistent units must be rejected (whatever the exception class)
        IF e.obs.exc = None THEN "bad_units_accepted" ELSE IF e.post.st # s.st THEN "frame" ELSE "ok"
+  ELSE IF e.op = "copy_flow_multi" THEN
+       \* a refusal is accepted (C01 speaks of calls that move material); otherwise the copied chemicals arrive, the others stay (or are cleared when all
+       \* are copied), and with remove the source loses exactly what was copied
+       IF e.obs.exc # None THEN "ok"
+       ELSE LET K == CopyK(t, a)
+                all == a.all /\ ~a.excl IN
+            IF ~Legal(e.post) THEN "post.illformed"
+            ELSE IF \E c \in 1..NC : Tot(u[a.x])[c] # (IF c \in K THEN Tot(t[a.y])[c] ELSE IF all THEN 0 ELSE Tot(t[a.x])[c]) THEN "conservation.copied_flow"
+            ELSE IF \E c \in 1..NC : Tot(u[a.y])[c] # (IF a.remove /\ c \in K THEN 0 ELSE Tot(t[a.y])[c]) THEN "conservation.source"
+            ELSE IF ~FrameOK(s, e, {a.x, a.y}) THEN "frame"
+            ELSE "ok"
   ELSE IF e.obs.exc # Exc(s, e.op, e.a) THEN "exception"
   ELSE IF ~Legal(e.post) THEN "post.illformed"
   ELSE IF e.post.sv # p.sv THEN "post.saved"
